@@ -376,7 +376,7 @@ def rule_exp_flow(ctx):
                 )
                 plain_ok = any(
                     isinstance(s, ast.Assign) and isinstance(s.value, ast.BinOp) and isinstance(s.value.op, ast.Mult)
-                    and "10 ** exponent" in src_of(s.value)
+                    and any(isinstance(x, ast.BinOp) and isinstance(x.op, ast.Pow) and any(isinstance(y, ast.Name) and y.id == "exponent" for y in ast.walk(x.right)) for x in ast.walk(s.value))
                     for b in n.orelse for s in ast.walk(b)
                 )
                 for name, ok in (("strip", strip_ok), ("plain", plain_ok)):
